@@ -73,6 +73,7 @@ def write_mc(dirpath, name, conf, consts, invariants, spec="SpecU", export=True,
         f.write("  TaFix = %s\n" % tla_val(bool(conf.get("TaFix", consts.get("TaFix", True)))))
         f.write("  GenFix = %s\n" % tla_val(bool(conf.get("GenFix", consts.get("GenFix", True)))))
         f.write("  TaWoke = %s\n" % tla_val(bool(conf.get("TaWoke", consts.get("TaWoke", True)))))
+        f.write("  MwFix = %s\n" % tla_val(bool(conf.get("MwFix", consts.get("MwFix", True)))))
         f.write("  NV = %d\n  MaxNow = %d\n  Binary = %s\n  K = %d\n  SB = %d\n  DbgFixed = %s\n  CvFix = %s\n" % (
             conf.get("NV", 2), conf.get("MaxNow", max([o["dl"] for p in conf["progs"] for o in p] + [0])), tla_val(bool(conf.get("Binary", False))), k, conf.get("SB", k + 4),
             tla_val(bool(conf.get("DbgFixed", consts.get("DbgFixed", True)))), tla_val(bool(conf.get("CvFix", consts.get("CvFix", True))))))
